@@ -193,6 +193,11 @@ Fixpoint nat_list_eqb (a b : list nat) : bool :=
   | _, _ => false
   end.
 
+(** The space-bug flag is sticky for the mail transaction: MAIL FROM records whether its own line had blanks between
+    ':' and '<', every RCPT TO with such blanks sets it, and a clean RCPT TO line never clears it.  So the recipient's
+    smtp_space_bug setting applies when the flag was set before OR this command has blanks. *)
+Definition doc_spacebug (s : session) : bool := s_prebug s || negb (N.eqb (s_spaces s) 0).
+
 (** the checker: case fields -> observation made on the C -> verdict.
     The result of a filter the case runs for real (stage 2) is taken from the model of that filter; what the checker
     demands of it is only the discipline of the interface: a filter that ends the evaluation with "denied, I have
@@ -202,7 +207,7 @@ Definition spec_ok_C12 (outcomes : bytes) (umode : N) (ufile : bytes) (dmode : N
   match decode_outcomes outcomes, decode_session sess, load_level gmode gfile, load_configs umode ufile dmode dfile with
   | Some slots, Some s, Some gc, Some (uc, dc) =>
       if negb (Nat.eqb (length slots) NFILTERS) then VPre else
-      match all_results slots s uc dc gc with
+      match all_results (doc_spacebug s) slots s uc dc gc with
       | None => VPre
       | Some results =>
       let fh := setting_on (doc_setting false (level_says uc KEY_FAIL_HARD) (level_says dc KEY_FAIL_HARD) Unset) in
